@@ -270,9 +270,22 @@ def calls_in(e):
             yield x
 
 
+MAXDEPTH = [12]
+
+
+def canon_full(e):
+    """canon without the depth cut-off (for structural matching of deeply nested expressions)"""
+    old = MAXDEPTH[0]
+    MAXDEPTH[0] = 80
+    try:
+        return canon(e)
+    finally:
+        MAXDEPTH[0] = old
+
+
 def canon(e, depth=0):
     """canonical, local-number-free rendering (for sibling comparison and messages)"""
-    if depth > 12:
+    if depth > MAXDEPTH[0]:
         return "…"
     k = e[0]
     if k == "arg":
